@@ -1,6 +1,6 @@
 //go:build verif
 
-package csidh
+package csidh_test
 
 // C14 for dh/csidh: public-key generation, validation and secret derivation for fixed private keys
 // under each configuration. Back-ends: fp511_noasm.go (purego); amd64: mul512 with MULX or MULQ
@@ -10,16 +10,18 @@ package csidh
 
 import (
 	"fmt"
+	"math/big"
 	"testing"
 
+	"github.com/cloudflare/circl/dh/csidh"
 	"github.com/cloudflare/circl/internal/verifc14"
 	"github.com/cloudflare/circl/internal/verifmc"
 )
 
-func c14Prv(name string) *PrivateKey {
-	var k PrivateKey
+func c14Prv(name string) *csidh.PrivateKey {
+	var k csidh.PrivateKey
 	fill := func(b byte) {
-		raw := make([]byte, PrivateKeySize)
+		raw := make([]byte, csidh.PrivateKeySize)
 		for i := range raw {
 			raw[i] = b
 		}
@@ -39,7 +41,7 @@ func c14Prv(name string) *PrivateKey {
 	case "+5/-5":
 		fill(0xb5)
 	default:
-		if err := GeneratePrivateKey(&k, verifmc.NewDetReader("c14-csidh-prv-"+name)); err != nil {
+		if err := csidh.GeneratePrivateKey(&k, verifmc.NewDetReader("c14-csidh-prv-"+name)); err != nil {
 			panic(err)
 		}
 	}
@@ -48,7 +50,7 @@ func c14Prv(name string) *PrivateKey {
 
 func TestVerifC14_csidh(t *testing.T) {
 	c := verifc14.Start(t, "csidh")
-	c.Backend("dh/csidh.{hasBMI2,hasADXandBMI2}", c14Backend(), verifc14.ThreeSel)
+	c.BackendOptional("dh/csidh.{hasBMI2,hasADXandBMI2}", csidh.C14ReadBackend, verifc14.ThreeSel)
 	r := c.R
 	keys := []string{"zero", "seed0", "seed1", "all+1"}
 	if r.Thorough() {
@@ -61,28 +63,40 @@ func TestVerifC14_csidh(t *testing.T) {
 
 	pubs := make([][]byte, len(keys))
 	verifmc.ParallelFor(len(keys), func(i int) {
-		var pub PublicKey
-		GeneratePublicKey(&pub, c14Prv(keys[i]), verifmc.NewDetReader("c14-csidh-gen-"+keys[i]))
-		pubs[i] = make([]byte, PublicKeySize)
+		var pub csidh.PublicKey
+		csidh.GeneratePublicKey(&pub, c14Prv(keys[i]), verifmc.NewDetReader("c14-csidh-gen-"+keys[i]))
+		pubs[i] = make([]byte, csidh.PublicKeySize)
 		pub.Export(pubs[i])
 	})
 	// fixed public values
-	pbytes := make([]byte, PublicKeySize)
-	for i := 0; i < numWords; i++ {
-		for k := 0; k < 8; k++ {
-			pbytes[8*i+k] = byte(p[i] >> (8 * uint(k)))
+	// p = 4 * 3 * 5 * ... * 373 * 587 - 1 (CSIDH-512): the 73 smallest odd primes and 587; computed here, not read from the package
+	pInt := big.NewInt(4)
+	nprimes := 0
+	for q := int64(3); nprimes < 73; q += 2 {
+		if big.NewInt(q).ProbablyPrime(20) {
+			pInt.Mul(pInt, big.NewInt(q))
+			nprimes++
 		}
+	}
+	pInt.Mul(pInt, big.NewInt(587))
+	pInt.Sub(pInt, big.NewInt(1))
+	if pInt.BitLen() != 511 {
+		t.Fatalf("CSIDH-512 prime reconstructed with %d bits", pInt.BitLen())
+	}
+	pbytes := pInt.FillBytes(make([]byte, csidh.PublicKeySize))
+	for i, j := 0, len(pbytes)-1; i < j; i, j = i+1, j-1 {
+		pbytes[i], pbytes[j] = pbytes[j], pbytes[i]
 	}
 	vals := []verifc14.Named{}
 	for k := -2; k <= 1; k++ {
 		vals = append(vals, verifc14.Named{Name: fmt.Sprintf("p%+d", k), V: verifc14.AddSmall(pbytes, k)})
 	}
 	for k := 0; k <= 3; k++ {
-		vals = append(vals, verifc14.Named{Name: fmt.Sprintf("%d", k), V: verifc14.AddSmall(make([]byte, PublicKeySize), k)})
+		vals = append(vals, verifc14.Named{Name: fmt.Sprintf("%d", k), V: verifc14.AddSmall(make([]byte, csidh.PublicKeySize), k)})
 	}
-	vals = append(vals, verifc14.Named{Name: "FF..", V: verifc14.AddSmall(make([]byte, PublicKeySize), -1)})
-	for i, b := range verifc14.Pseudo("csidh-pub", r.Pick(3, 12), PublicKeySize) {
-		b[PublicKeySize-1] &= 0x3f // below p
+	vals = append(vals, verifc14.Named{Name: "FF..", V: verifc14.AddSmall(make([]byte, csidh.PublicKeySize), -1)})
+	for i, b := range verifc14.Pseudo("csidh-pub", r.Pick(3, 12), csidh.PublicKeySize) {
+		b[csidh.PublicKeySize-1] &= 0x3f // below p
 		vals = append(vals, verifc14.Named{Name: fmt.Sprintf("pseudo%d", i), V: b})
 	}
 	for i, b := range verifc14.OneLimbAway(8, []uint64{1, 1 << 63})[:r.Pick(8, 16)] {
@@ -96,20 +110,20 @@ func TestVerifC14_csidh(t *testing.T) {
 			name := keys[i]
 			c.Case("KeyPair#"+name, func(d *verifc14.D) {
 				prv := c14Prv(name)
-				raw := make([]byte, PrivateKeySize)
+				raw := make([]byte, csidh.PrivateKeySize)
 				d.Bool("export.ok", prv.Export(raw))
 				d.Bytes("prv", raw)
 				d.Bytes("pub", pubs[i])
-				var pub PublicKey
+				var pub csidh.PublicKey
 				d.Bool("import.ok", pub.Import(pubs[i]))
-				d.Bool("validate", Validate(&pub, verifmc.NewDetReader("c14-csidh-val-"+name)))
+				d.Bool("validate", csidh.Validate(&pub, verifmc.NewDetReader("c14-csidh-val-"+name)))
 				// exchange with the next key of the cycle, both directions
 				j := (i + 1) % n
-				var peer PublicKey
+				var peer csidh.PublicKey
 				peer.Import(pubs[j])
 				var ss1, ss2 [64]byte
-				ok1 := DeriveSecret(&ss1, &peer, prv, verifmc.NewDetReader("c14-csidh-ds1-"+name))
-				ok2 := DeriveSecret(&ss2, &pub, c14Prv(keys[j]), verifmc.NewDetReader("c14-csidh-ds2-"+name))
+				ok1 := csidh.DeriveSecret(&ss1, &peer, prv, verifmc.NewDetReader("c14-csidh-ds1-"+name))
+				ok2 := csidh.DeriveSecret(&ss2, &pub, c14Prv(keys[j]), verifmc.NewDetReader("c14-csidh-ds2-"+name))
 				d.Bool("derive1.ok", ok1)
 				d.Bytes("ss1", ss1[:])
 				d.Bool("derive2.ok", ok2)
@@ -123,18 +137,18 @@ func TestVerifC14_csidh(t *testing.T) {
 		}
 		v := vals[i-n]
 		c.Case("FixedPublicValue#"+v.Name, func(d *verifc14.D) {
-			var pub PublicKey
+			var pub csidh.PublicKey
 			d.Bool("import.ok", pub.Import(v.V))
-			out := make([]byte, PublicKeySize)
+			out := make([]byte, csidh.PublicKeySize)
 			pub.Export(out)
 			d.Bytes("export", out)
-			ok := Validate(&pub, verifmc.NewDetReader("c14-csidh-valf-"+v.Name))
+			ok := csidh.Validate(&pub, verifmc.NewDetReader("c14-csidh-valf-"+v.Name))
 			d.Bool("validate", ok)
 			d.Exec(1)
 			if ok {
 				r.Count("fixed_values_valid", 1)
 				var ss [64]byte
-				d.Bool("derive.ok", DeriveSecret(&ss, &pub, c14Prv("seed0"), verifmc.NewDetReader("c14-csidh-dsf-"+v.Name)))
+				d.Bool("derive.ok", csidh.DeriveSecret(&ss, &pub, c14Prv("seed0"), verifmc.NewDetReader("c14-csidh-dsf-"+v.Name)))
 				d.Bytes("ss", ss[:])
 				d.Exec(1)
 			} else {
